@@ -430,7 +430,7 @@ func (x *Exec) applyContract(fr *Frame, st *State, in ssa.Instruction, con *Cont
 			if !invoke {
 				fn = x.eng.findFunc(key)
 			}
-			res = x.pureApp(fr, st, key, con, sig, args, fn, true)
+			res = x.pureApp(fr, st, key, con, sig, args, fn, true, nil)
 			return
 		}
 		snap := st.snapshot()
